@@ -13,6 +13,7 @@ type caseT struct {
 	R *rcaseT `json:",omitempty"`
 	B *bcaseT `json:",omitempty"`
 	Z *scaseT `json:",omitempty"`
+	O *ocaseT `json:",omitempty"`
 }
 
 func main() {
@@ -31,6 +32,13 @@ func main() {
 		}
 		for i, c := range fixedApp() {
 			fmt.Fprintln(w, emitBuffer(fmt.Sprintf("c20-app-%d", i), c, r, st))
+		}
+		for i, c := range fixedConfig() {
+			fmt.Fprintln(w, emitConfig(fmt.Sprintf("c20-ofix-%d", i), c, st))
+		}
+		// construction + acceptance: one tenth as many cases as the others
+		for i := 0; i < a.N/10; i++ {
+			fmt.Fprintln(w, emitConfig(fmt.Sprintf("c20-o-%d-%d", a.Seed, i), genConfig(r), st))
 		}
 		for i := 0; i < a.N; i++ {
 			if i%3 == 2 {
@@ -75,6 +83,8 @@ func main() {
 				fmt.Fprintln(w, emitBuffer(id, *k.B, nil, nil))
 			case k.Z != nil:
 				fmt.Fprintln(w, emitStress(id, *k.Z, nil))
+			case k.O != nil:
+				fmt.Fprintln(w, emitConfig(id, *k.O, nil))
 			}
 		}
 	}
